@@ -91,3 +91,13 @@ package fastforward
 //@   ensures calls(fwdExchange) == 1 && arg(fwdExchange, 0, 3) == f.us
 //@   ensures err == ret(fwdExchange, 0, 1) && (err == nil ==> calls(SetResponse) == 1 && arg(SetResponse, 0, 1) == ret(fwdExchange, 0, 0))
 //@   ensures err != nil ==> calls(SetResponse) == 0
+
+// The executable built by QuickConfigureExec (C14) runs exchange on the upstream list it captured
+// (the tag lookup that builds the list is not under contract).
+//@ func (f *Forward) QuickConfigureExec$1 [C14]
+//@   requires f != nil && ctx != nil && qCtx != nil && qCtx.query != nil && len(qCtx.query.Question) >= 1
+//@   requires forall k int :: 0 <= k && k < len(us) ==> us[k] != nil
+//@   modifies *
+//@   ensures calls(fwdExchange) == 1 && arg(fwdExchange, 0, 3) == us
+//@   ensures result == ret(fwdExchange, 0, 1) && (result == nil ==> calls(SetResponse) == 1 && arg(SetResponse, 0, 1) == ret(fwdExchange, 0, 0))
+//@   ensures result != nil ==> calls(SetResponse) == 0
